@@ -19,7 +19,7 @@ BUDGET = {
     "quick": {"runs": 550, "time_cap": 150, "determinism_sample": 12, "shrink_runs": 120},
     "thorough": {"runs": 9000, "time_cap": 1500, "determinism_sample": 60, "shrink_runs": 300},
 }
-BOUNDS = "1-12 generated lines per session (plus probe lines), <=3 statements per line, names from a pool of 5 variables and 3 functions, lines < 200 characters"
+BOUNDS = "1-12 generated lines per session (plus probe lines), <=3 statements per line, names from a pool of 8 variables (3 of them shadow builtin names) and 3 functions, lines < 250 characters"
 RULE = ("each run = one REPL session: a seeded history of definitions, redefinitions, assignments, function definitions "
         "(closures, recursion), uses/prints, bare expressions and continued lines, with failing lines injected at seeded "
         "positions: parser-rejected, compiler-rejected (undefined name, after redefining live names, inside a function body, "
@@ -48,7 +48,8 @@ COMPONENTS = {
     "stub": [],
 }
 
-VARS = ["a", "b", "c", "d", "e"]
+# "first", "last", "time" shadow builtin functions that the generator itself never calls
+VARS = ["a", "b", "c", "d", "e", "first", "last", "time"]
 FUNS = ["f", "g", "h"]
 UNDEF = ["zzz", "yyy", "undef1", "nope"]
 MARK = "@@MARK@@"
